@@ -142,14 +142,22 @@ class Ctx(object):
         return f
 
 
-def run_all_configs(run, tier, res, target='le'):
-    """Decide on the default configuration and on every other configuration
-    whose code differs (see Ctx.config_variants)."""
+def run_all_configs(run, tier, res, target='le', ilp32='always'):
+    """Decide on the default configuration, on every other configuration
+    whose code differs (see Ctx.config_variants) and on a little-endian ILP32
+    target (i386: 32-bit long, size_t and pointers - `1UL << 32`, size_t
+    arithmetic and pointer-sized casts behave differently there)."""
     ctx = Ctx(target)
     vs = ctx.config_variants()
-    res.extra['build configurations analysed'] = ['default (assertions on)'] + \
+    res.extra['build configurations analysed'] = ['default (x86-64, assertions on)'] + \
         (['-DNDEBUG (differs from default)'] if vs else ['-DNDEBUG: IR identical to default, nothing further to decide'])
     out = run(ctx, tier, res)
     for tag, v in vs:
         out = run(v, tier, res, tag=tag)
+    if ilp32 == 'always' or (ilp32 == 'thorough' and tier == 'thorough'):
+        c32 = Ctx('le32')
+        if c32.mod.ptr_bytes != 4 or c32.mod.big_endian:
+            raise Broken('target le32 is not a little-endian 32-bit target')
+        res.extra['build configurations analysed'].append('i386 (little-endian, ILP32)')
+        out = run(c32, tier, res, tag=' [i386]')
     return out
